@@ -19,7 +19,9 @@ import (
 func init() {
 	commands["sched-rec"] = cmdSchedRec
 	commands["sched-rec-overlap"] = cmdSchedRecOverlap
+	commands["rec-tick"] = cmdRecTick
 	streams["sched-rec"] = streamSchedRec
+	streams["rec-tick"] = streamRecTick
 }
 
 // opsCollector records counters.ops (or the document count) of every document it is given.
@@ -205,6 +207,79 @@ func cmdSchedRec(o *Out, line string, f []string) {
 	o.count("sched-rec-" + kind)
 }
 
+// tickCollector counts Add calls and fails on chosen ones (it does not look at the samples: marshalling a histogram
+// point is far too slow to do on every tick)
+type tickCollector struct {
+	mu     sync.Mutex
+	calls  int
+	failAt map[int]bool
+}
+
+func (c *tickCollector) Add(interface{}) error {
+	c.mu.Lock()
+	defer c.mu.Unlock()
+	c.calls++
+	if c.failAt[c.calls-1] {
+		return fmt.Errorf("scripted failure of Add #%d", c.calls-1)
+	}
+	return nil
+}
+func (c *tickCollector) SetMetadata(interface{}) error { return nil }
+func (c *tickCollector) Resolve() ([]byte, error)      { return nil, nil }
+func (c *tickCollector) Reset()                        {}
+func (c *tickCollector) Info() ftdc.CollectorInfo      { return ftdc.CollectorInfo{} }
+func (c *tickCollector) n() int                        { c.mu.Lock(); defer c.mu.Unlock(); return c.calls }
+
+// rec-tick <kind: interval | histInterval> <failing Add indexes, comma separated or -> <K> <cycles>
+// An interval recorder with a 2 ms interval and a collector that fails on chosen calls: while a test is open a sample
+// is persisted at every elapsed interval - also after the collector has returned an error - and EndTest returns the
+// collector errors since the previous EndTest (C15: "persisted at exactly the documented moments ... elapsed interval").
+func cmdRecTick(o *Out, line string, f []string) {
+	kind, K, cycles := f[0], int(atoi64(f[2])), int(atoi64(f[3]))
+	verifhook.Set(nil)
+	ctx, cancel := context.WithCancel(context.Background())
+	defer cancel()
+	var res []string
+	for c := 0; c < cycles; c++ {
+		coll := &tickCollector{failAt: map[int]bool{}}
+		if f[1] != "-" {
+			for _, x := range strings.Split(f[1], ",") {
+				coll.failAt[int(atoi64(x))] = true
+			}
+		}
+		var rec events.Recorder
+		switch kind {
+		case "interval":
+			rec = events.NewIntervalRecorder(ctx, coll, 2*time.Millisecond)
+		case "histInterval":
+			rec = events.NewIntervalHistogramRecorder(ctx, coll, 2*time.Millisecond)
+		default:
+			panic(kind)
+		}
+		rec.BeginIteration()
+		rec.IncOperations(5)
+		deadline := time.Now().Add(3 * time.Second)
+		for coll.n() < K && time.Now().Before(deadline) {
+			time.Sleep(500 * time.Microsecond)
+		}
+		reached := coll.n() >= K
+		rec.EndIteration(time.Millisecond)
+		err := rec.EndTest()
+		if !reached {
+			o.violation(line, "an interval recorder stopped persisting at elapsed intervals while the test was open",
+				map[string]int{"cycle": c, "adds": coll.n(), "expected_at_least": K})
+		}
+		if want := len(coll.failAt) > 0; (err != nil) != want {
+			o.violation(line, "EndTest does not report the collector errors since the previous EndTest (or reports one that did not happen)",
+				map[string]interface{}{"cycle": c, "error": fmt.Sprint(err), "failing_adds": f[1]})
+		}
+		res = append(res, fmt.Sprintf("ticks=%v,endErr=%v", reached, err != nil))
+	}
+	o.emit(line, strings.Join(res, " "))
+	o.nontrivial(line)
+	o.count("rec-tick-" + kind)
+}
+
 // sched-rec-overlap <kind> <G> <M> <tick us> <seed>
 // G goroutines issue M IncOperations(1) each WHILE the main goroutine runs test cycles (BeginIteration,
 // EndIteration, EndTest) as fast as it can; after the writers have finished, one more cycle.  Every increment is
@@ -272,6 +347,20 @@ func cmdSchedRecOverlap(o *Out, line string, f []string) {
 	o.emit(line, fmt.Sprintf("ok total=%d errs=%d", sum, endErrs))
 	o.nontrivial(line)
 	o.count("sched-rec-overlap-" + kind)
+}
+
+func streamRecTick(o *Out, rng *rand.Rand, thorough bool, _ []string) {
+	var lines []string
+	fails := []string{"-", "0", "1", "0,2", "3"}
+	if thorough {
+		fails = append(fails, "2", "4", "0,1,2,3", "5", "1,4")
+	}
+	for _, fa := range fails {
+		for _, kind := range []string{"interval", "histInterval"} {
+			lines = append(lines, fmt.Sprintf("rec-tick %s %s %d %d", kind, fa, 6+rng.Intn(4), 1+rng.Intn(2)))
+		}
+	}
+	runIsolated(o, lines, 30*time.Second)
 }
 
 func streamSchedRec(o *Out, rng *rand.Rand, thorough bool, _ []string) {
